@@ -548,7 +548,6 @@ def meta_exprs(mods, recs, serialized, size=40):
 def gen_records(rng):
     """Measurement layouts: 1..6 keys over disjoint targets with indices up to 40, short / long / odd keys."""
     n = rng.randint(1, 6)
-    pool = rng.sample(range(rng.choice([3, 8, 12, 41])), k=rng.choice([3, 3, 8, 8, 12])) if False else None
     top = rng.choice([3, 6, 12, 41])
     pool = list(range(top))
     rng.shuffle(pool)
@@ -651,6 +650,146 @@ def replay_discrete(cirq, mods, rep):
     raise KeyError(kind)
 
 
+# ---------------------------------------------------------------------------------------------------
+# results: vendor histograms (little-endian outcome integers) -> cirq.Result, through ionq.Job
+# ---------------------------------------------------------------------------------------------------
+class FakeClient:
+    """Stands where cirq_ionq's HTTP client stands inside a Job: hands back a prepared histogram."""
+
+    def __init__(self, hist):
+        self.hist = hist
+
+    def get_results(self, job_id, sharpen=None, extra_query_params=None):
+        return self.hist
+
+    def get_job(self, job_id):
+        raise AssertionError('job is terminal')
+
+
+class Picks:
+    """Scripted randomness for SimulatorResult.to_cirq_result: records the weights, returns the scripted indices."""
+
+    def __init__(self, picks):
+        self.picks, self.p, self.a = picks, None, None
+
+    def choice(self, a, p=None, size=None, replace=True):
+        self.a, self.p = list(a), [float(x) for x in p]
+        return np.array([self.picks[i % len(self.picks)] % len(self.a) for i in range(size)], dtype=int)
+
+
+def gen_results_case(rng):
+    n = rng.randint(1, 6)
+    pool = list(range(n))
+    rng.shuffle(pool)
+    meas = []
+    while pool and (not meas or rng.random() < 0.6):
+        k = rng.randint(1, len(pool))
+        ts, pool = pool[:k], pool[k:]
+        meas.append([f'k{len(meas)}' if rng.random() < 0.7 else draw_key(rng) + str(len(meas)), ts])
+    m = rng.randint(1, min(2 ** n, 6))
+    outs = rng.sample(range(2 ** n), m)
+    hist = [[o, rng.randint(1, 4)] for o in outs]
+    target = rng.choice(['qpu', 'qpu.aria-1', 'simulator'])
+    picks = [rng.randrange(m) for _ in range(rng.randint(1, 7))]
+    return dict(kind='ionq_results', n=n, meas=meas, hist=hist, target=target, picks=picks)
+
+
+def run_results_case(cirq, mods, rep):
+    """Real serializer metadata -> Job -> results() -> to_cirq_result. Returns (result object, {key: rows}, Picks|None)."""
+    n, meas, hist = rep['n'], rep['meas'], rep['hist']
+    q = cirq.LineQubit
+    circuit = cirq.Circuit([cirq.X(q(n - 1))] + [cirq.measure(*[q(t) for t in ts], key=k) for k, ts in meas])
+    prog = mods['cirq_ionq'].Serializer().serialize_single_circuit(circuit)
+    shots = sum(c for _, c in hist)
+    md = dict(prog.metadata)
+    md['shots'] = str(shots if rep['target'].startswith('qpu') else len(rep['picks']))
+    job = mods['cirq_ionq'].Job(client=FakeClient({str(o): c / shots for o, c in hist}),
+                                job_dict={'id': 'j', 'status': 'completed', 'backend': rep['target'], 'metadata': md,
+                                          'stats': {'qubits': str(prog.input['qubits'])}})
+    res = job.results()
+    picks = None
+    if rep['target'].startswith('qpu'):
+        out = res.to_cirq_result()
+    else:
+        picks = Picks(rep['picks'])
+        out = res.to_cirq_result(seed=picks)
+    rows = {k: [[int(b) for b in row] for row in np.asarray(out.measurements[k])] for k, _ in meas}
+    if set(out.measurements) != {k for k, _ in meas}:
+        rows['<keys>'] = sorted(out.measurements)
+    return res, rows, picks
+
+
+def bits_of(o, ts):
+    return [(o >> t) & 1 for t in ts]          # little-endian: qubit t is bit t of the vendor's outcome integer
+
+
+def results_oracle(cirq, mods, rep):
+    """The property on the real code: every outcome lands on the right key and qubit (any order of repetitions for the
+    QPU, but the same order for all keys)."""
+    res, rows, picks = run_results_case(cirq, mods, rep)
+    meas, hist = rep['meas'], rep['hist']
+    if '<keys>' in rows:
+        return False
+    joint = list(zip(*[[tuple(r) for r in rows[k]] for k, _ in meas]))
+    if rep['target'].startswith('qpu'):
+        want = []
+        for o, c in hist:
+            want += [tuple(tuple(bits_of(o, ts)) for _, ts in meas)] * c
+        ok = sorted(joint) == sorted(want)
+        for k, ts in meas:
+            cnt = {}
+            for o, c in hist:
+                v = int(''.join(map(str, bits_of(o, ts))), 2)
+                cnt[v] = cnt.get(v, 0) + c
+            ok = ok and dict(res.counts(k)) == cnt
+        return ok
+    want = [tuple(tuple(bits_of(hist[i % len(hist)][0], ts)) for _, ts in meas) for i in (rep['picks'][j % len(rep['picks'])] for j in range(len(joint)))]
+    shots = sum(c for _, c in hist)
+    ok = joint == want and len(joint) == len(rep['picks']) and np.allclose(picks.p, [c / shots for _, c in hist], atol=1e-12)
+    for k, ts in meas:
+        pr = {}
+        for o, c in hist:
+            v = int(''.join(map(str, bits_of(o, ts))), 2)
+            pr[v] = pr.get(v, 0) + c / shots
+        got = res.probabilities(k)
+        ok = ok and set(got) == set(pr) and all(abs(got[v] - pr[v]) < 1e-12 for v in pr)
+    return ok
+
+
+def results_stream(ctx, cirq, mods, dchecks, n):
+    rng = ctx.rng
+    for _ in range(n):
+        rep = gen_results_case(rng)
+        try:
+            res, rows, picks = run_results_case(cirq, mods, rep)
+        except Exception as e:
+            ctx.disagree('correspondence:ionq_results', f'{type(e).__name__}: {e}', f'ionq_results:raises:{type(e).__name__}',
+                         f'converting the histogram {rep["hist"]} for {rep["meas"]} raised {type(e).__name__}: {e}', rep)
+            continue
+        ctx.count('ionq_results', rep, rep['n'] >= 2 and len(rep['hist']) >= 2,
+                  sample=dict(case=rep, rows={k: v[:3] for k, v in rows.items()}))
+        if '<keys>' in rows:
+            ctx.disagree('correspondence:ionq_results', f'keys {rows["<keys>"]}', 'ionq_results:keys',
+                         f'result keys {rows["<keys>"]} are not the measured keys {rep["meas"]}', rep)
+            continue
+        for k, ts in rep['meas']:
+            tl = f'[{"; ".join(map(str, ts))}]%N'
+            impl = '(Some [' + '; '.join('[' + '; '.join(map(str, r)) + ']' for r in rows[k]) + '])'
+            if rep['target'].startswith('qpu'):
+                hl = '[' + '; '.join(f'({o}, {c}%nat)' for o, c in rep['hist']) + ']'
+                expr = f'orows_eqb (qpu_rows {rep["n"]} {tl} {hl}) {impl}'
+            else:
+                ol = '[' + '; '.join(str(o) for o, _ in rep['hist']) + ']'
+                pk = '[' + '; '.join(str(rep['picks'][j % len(rep['picks'])]) for j in range(len(rep['picks']))) + ']%nat'
+                expr = f'orows_eqb (sim_rows {rep["n"]} {tl} {ol} {pk}) {impl}'
+            dchecks.append(('ionq_results', expr, rep, f'rows of key {k!r}'))
+        # the Python reading of the statement is checked on every case as well (counts / probabilities views are only compared here)
+        if not results_oracle(cirq, mods, rep):
+            ctx.disagree('correspondence:ionq_results', json.dumps(rep)[:300], 'ionq_results:oracle',
+                         f'histogram {rep["hist"]} (little-endian) for measurements {rep["meas"]} on target {rep["target"]} is not '
+                         f'assigned to the right keys/qubits: {rows}', rep)
+
+
 def run(ctx):
     mods = env.import_cirq(('cirq_ionq', 'cirq_aqt', 'cirq_pasqal'))
     cirq = mods['cirq']
@@ -666,9 +805,12 @@ def run(ctx):
         ctx.mark_broken('table:EigenTables', err['EigenTables'])
     ctx.set_obligations(coq.compile_props('C17'))
     q = ctx.tier == 'quick'
-    checks = []
+    checks, dchecks = [], []
     ionq_payload_stream(ctx, cirq, mods, checks, 240 if q else 3000)
+    metadata_stream(ctx, cirq, mods, dchecks, 300 if q else 4000)
+    results_stream(ctx, cirq, mods, dchecks, 200 if q else 3000)
     evaluate(ctx, cirq, mods, checks)
+    evaluate_discrete(ctx, cirq, mods, dchecks)
 
 
 def replay(ctx, data):
